@@ -7,7 +7,7 @@ CONSTANTS
   SrcVals = {"S0", "S1"}
   UserActs = {"edit", "build", "clean", "rules", "tamper", "deltarget"}
   Goals = {"", "q"}
-  MaxUser = 8
+  MaxUser = 12
   FreeFrom = 99
   Script <- mcScriptEmpty
 INIT GInit
